@@ -152,6 +152,45 @@ CHECKS = {
         note=BASE_NOTE + 'That the code generator emits a well-bracketed stream is checked per module, not proved for the generator; '
              'the synthesised block start/end records of finalize are corresponded, not modelled.',
         technique='Lean 4 theorems over a marker/record model + correspondence on real modules'),
+    'C07': dict(
+        category='proof',
+        text='Theorems over Model/Tick.lean (QvmCpu.tick, _trap, errhand/errres/errresn, interrupt check, halting) for ANY '
+             'instruction semantics: a pending interrupt stops the run with KEYBOARD_INTERRUPT before any further instruction and is '
+             'consumed; nothing escapes tick() except an instruction\'s own host exception (Trapped and ZeroDivisionError always end '
+             'in a dispatched or reported trap); with no handler armed every trap halts in the TRAP state. Over Model/Arith.lean: '
+             'division and MOD by zero, integral overflow and float division by zero yield the prescribed trap class; integral '
+             'arithmetic never raises a host exception. The tick model is replayed against every tick of the real machine in '
+             'lock-step; instructions outside the models are searched for host exceptions.',
+        design_ref='DESIGN.md section 9 C07',
+        note=BASE_NOTE + 'String, array, device and float-power instructions are parameters of the tick model (searched, not proved); '
+             'SIGINT delivery by the OS is not modelled.',
+        technique='Lean 4 theorems over a tick/trap model + lock-step correspondence with the real machine'),
+    'C10': dict(
+        category='proof',
+        text='Theorems over Model/Tick.lean for any program and any failing instruction: armed ON ERROR GOTO dispatches every trap to '
+             'the handler recording kind and address; RESUME re-enters the failed statement, RESUME NEXT its end, both leave the '
+             'handler; ON ERROR RESUME NEXT skips; ON ERROR GOTO 0 restores fatal reporting. Lock-step correspondence on every '
+             'tick of generated handler programs; the "as if not started" clause is decided by comparing each handler program with '
+             'its straight-line reference program (trace, outcome, final stack depth) - not a theorem: it is false on this tree '
+             '(known finding: operand stack not restored).',
+        design_ref='DESIGN.md section 9 C10',
+        note=BASE_NOTE + 'Statement ranges come from find_stmt (C11) as a parameter of the tick model.',
+        technique='Lean 4 theorems over a tick/trap model + lock-step correspondence + reference-program oracle'),
+    'C12': dict(
+        category='proof',
+        text='Theorems over Model/Dbg.lean for ANY machine (tick, pc, halted, frame, call size, statement lookup are parameters), any '
+             'program and any command history: every command only advances the machine along its own free run, never on a halted '
+             'machine (session_transparent); step and next return in a different statement or finished; step passes over no state '
+             'in which control was in another statement; next / nexti over a call return to the calling frame at the return address '
+             '(NextPath: whole-call moves only); continue stops at the first breakpoint hit after at least one instruction and '
+             'nowhere else; the breakpoint list stays duplicate-free so a deleted breakpoint never stops a run; `break <line>` '
+             'resolves to the first statement in source order at or after the line that has instructions. Real debugger sessions '
+             'are replayed through the model instantiated with the recorded free run; an independent statement of the property\'s '
+             'claims is evaluated on every session to produce failing inputs.',
+        design_ref='DESIGN.md section 9 C12',
+        note=BASE_NOTE + 'Model = the debugger AS REPAIRED (five fix commits); the text the debugger prints is not compared; '
+             'termination of a command is that of the program (fuel in the model).',
+        technique='Lean 4 theorems over a parametric debugger/machine model + session correspondence with the real debugger'),
 }
 
 PENDING = ('not yet decided by the Lean framework in this commit; design in DESIGN.md section 9, implementation order in '
